@@ -604,7 +604,25 @@ pub fn gen_invalid(rng: &mut Rng, spec: SpecId, n_txs: usize) -> Block {
     b.nonces.insert(maxed, u64::MAX);
     for _ in 0..n_txs {
         let from = eoa(rng.below(n_eoas));
-        match rng.below(15) {
+        match rng.below(17) {
+            15 | 16 => {
+                // TWO defects: the maximum nonce (from a sender whose state nonce is ordinary, or
+                // exhausted) and a defect that revm's environment validation tests EARLIER — the
+                // reported reason must be the earlier one
+                let sender = if rng.chance(1, 3) { maxed } else { from };
+                let i = b.transfer(rng, sender, eoa(0), 1);
+                let n = b.txs[i].nonce;
+                b.txs[i].nonce = u64::MAX;
+                b.nonces.insert(sender, n);
+                if b.basefee > 0 && rng.chance(1, 2) {
+                    b.txs[i].gas_price = (b.basefee - 1) as u128;
+                    b.txs[i].gas_priority_fee = if b.txs[i].tx_type == 2 { Some(0) } else { None };
+                    b.desc[i].push_str(" [max nonce + fee below base fee]");
+                } else {
+                    b.txs[i].chain_id = Some(999);
+                    b.desc[i].push_str(" [max nonce + wrong chain id]");
+                }
+            }
             14 => {
                 let to = eoa(rng.below(n_eoas));
                 let i = b.transfer(rng, maxed, to, 1);
@@ -839,7 +857,17 @@ pub fn gen_delegated(rng: &mut Rng, spec: SpecId, n_txs: usize) -> Block {
     for _ in 0..n_txs {
         let from = eoa(rng.below(n_eoas));
         let k = rng.below(3);
-        match rng.below(14) {
+        match rng.below(16) {
+            14 | 15 => {
+                // a contract-creation TRANSACTION whose init code calls the delegated account: the
+                // delegate's CREATE/CREATE2 runs in the delegated account's context, whatever the
+                // kind of the transaction around it
+                let init = asm::initcode(
+                    &[Stmt::Call { kind: CallKind::Call, to: addr(da(k)), value: c(0), arg: Some(c(0)), result_slot: Some(0), gas: None }],
+                    &runtime,
+                );
+                b.tx(rng, from, TxKind::Create, U256::ZERO, init, 700_000, format!("create-tx-whose-initcode-calls-delegated {k}"));
+            }
             0..=3 => {
                 let i = b.call(rng, from, da(k), &[0], "sponsor-calls-delegated");
                 if rng.chance(1, 4) {
@@ -1180,6 +1208,30 @@ pub fn standard_precompiles() -> Vec<(Address, DynParallelPrecompile)> {
                 (Err(_), _) => ok(r, 10),
             }
         })),
+        // 9: a vault on a CODELESS account (nonce 0, no code): mode 0 stores into its slot 0 and
+        // funds it, mode 1 empties it (balance 0: the account is then touched-and-empty, which
+        // EIP-161 clears together with the storage only the facade could have put there), mode 2
+        // records its slot 0. After store / empty the slot must read 0 on every path.
+        (precompile_addr(9), DynParallelPrecompile::new(PrecompileId::Custom("vault".into()), move |input| {
+            let mut st = Probe::new(input);
+            let mode = word(st.input.data(), 0).to::<u64>();
+            let r = st.input.reservoir();
+            let vault = contract(49);
+            match mode {
+                0 => {
+                    let v = st.sload(vault, U256::ZERO)?;
+                    st.sstore(vault, U256::ZERO, v + U256::from(7u64))?;
+                    let b = st.balance(vault)?;
+                    st.set_balance(vault, b + U256::from(1u64))?;
+                }
+                1 => st.set_balance(vault, U256::ZERO)?,
+                _ => {
+                    let v = st.sload(vault, U256::ZERO)?;
+                    st.sstore(holder(), U256::from(12u64), v + U256::from(100u64))?;
+                }
+            }
+            ok(r, 40)
+        })),
         // 7: reads the balance of an account that is still cold in this transaction through the
         // facade and records it; callers read the same account again afterwards (both reads must
         // see one version, and the facade read must be validated like an opcode read)
@@ -1272,9 +1324,15 @@ pub fn precompile_builder(rng: &mut Rng, spec: SpecId, n_eoas: usize) -> Builder
 pub fn gen_precompile(rng: &mut Rng, spec: SpecId, n_txs: usize) -> Block {
     let n_eoas = 2 + rng.below(3);
     let mut b = precompile_builder(rng, spec, n_eoas);
-    for _ in 0..n_txs {
+    // one block in four opens with the life of the codeless vault: store, empty, read
+    let vault_script = rng.below(4) == 0;
+    for k in 0..n_txs.max(if vault_script { 3 } else { 0 }) {
         let from = eoa(rng.below(n_eoas));
-        match rng.below(16) {
+        match if vault_script && k < 3 { 16 + k } else { rng.below(19) } {
+            m @ 16..=18 => {
+                let mode = (m - 16) as u64;
+                b.call(rng, from, precompile_addr(9), &[mode], ["vault-store", "vault-empty", "vault-read"][mode as usize]);
+            }
             0..=2 => {
                 let w = rng.below(4) as u64;
                 b.call(rng, from, precompile_addr(0), &[w], "precompile-rw-direct");
